@@ -271,6 +271,41 @@ fn lines_chunks(pieces: &[Vec<u8>], direct: bool, rep: &mut Report) -> String {
     }
 }
 
+/// the real `LinesCodec` under the real `Framed`: the pieces are the reads, then end of file; the
+/// stream is polled `pieces + LFs + 4` times.  T3 (C15): the items are the reference lines, then
+/// `None` and nothing but `None` — no error that the codec did not raise (a lone CR that
+/// `decode_eof` leaves in the buffer is not an error)
+fn lines_framed(pieces: &[Vec<u8>], style: u8, rep: &mut Report) -> String {
+    let whole: Vec<u8> = pieces.concat();
+    let mut s = Session::new(Sel::Lines, Init::New, style);
+    s.io.0.borrow_mut().rscript.extend(pieces.iter().filter(|p| !p.is_empty()).map(|p| Rd::Data(p.clone())));
+    let polls = pieces.iter().filter(|p| !p.is_empty()).count() + whole.iter().filter(|b| **b == b'\n').count() + 4;
+    let mut outs = vec![];
+    for _ in 0..polls {
+        match s.poll_next(false) {
+            Ok(o) => outs.push(o),
+            Err(_) => {
+                rep.t3("C15", &format!("Framed<_, LinesCodec> panicked on {}", hex(&whole)));
+                return "panic".into();
+            }
+        }
+    }
+    let mut want: Vec<Out> = lines_reference(&whole)
+        .into_iter()
+        .map(|l| match l {
+            LineItem::Ok(v) => Out::Item(v),
+            LineItem::Err => Out::DecErr(io::ErrorKind::InvalidData),
+        })
+        .collect();
+    while want.len() < outs.len() {
+        want.push(Out::None);
+    }
+    if outs != want {
+        rep.t3("C15", &format!("LinesCodec under Framed, reads {} then end of file: the stream yields [{}] but the reference splitter says [{}]", pieces.iter().map(|p| hex(p)).collect::<Vec<_>>().join(" "), show_outs(&outs), show_outs(&want)));
+    }
+    format!("[{}]", outs.iter().map(|o| o.show()).collect::<Vec<_>>().join(","))
+}
+
 /// all ways of cutting `s` into `k` consecutive (possibly empty) pieces
 fn splits(s: &[u8], k: usize) -> Vec<Vec<Vec<u8>>> {
     if k == 1 {
@@ -498,6 +533,32 @@ fn gen_c15(a: &Args, w: &mut dyn Write) {
             _ => writeln!(w, "dec {}", hex(&s)).unwrap(),
         }
     }
+    // (3a) the codec under the real `Framed` (reads, then end of file): every string up to the bound
+    // whole and in every two-piece split; directed streams ending in CR (after a complete line, after
+    // a partial line, alone, doubled) in every split into up to three reads
+    {
+        let lf = if thorough { 5 } else { 4 };
+        let mut n = 0usize;
+        let mut line = |w: &mut dyn Write, ps: &[Vec<u8>]| {
+            if n % 8000 == 0 {
+                writeln!(w, "case lines-framed-{}", n / 8000).unwrap();
+            }
+            n += 1;
+            writeln!(w, "framed {}", ps.iter().map(|p| hex(p)).collect::<Vec<_>>().join(" ")).unwrap();
+        };
+        all_strings(&LINES_ALPHABET, lf, &mut |s| {
+            for ps in splits(s, 2) {
+                line(w, &ps);
+            }
+        });
+        for st in [&b"\r"[..], b"ab\r", b"a\n\r", b"a\r\n\r", b"\r\r", b"a\nb\r", b"\n\r", b"a\r\r", "é\r".as_bytes(), b"\xff\r", b"a\n\r\n\r"] {
+            for k in 1..=3 {
+                for ps in splits(st, k) {
+                    line(w, &ps);
+                }
+            }
+        }
+    }
     // (3b) length sweep: the newline of the first line at every buffer offset 0..=600 and around
     // 1024, 2048, 4096, 8192, 9000, a second line behind it; fed whole, and to one codec instance split
     // just before / at / after / one past the newline
@@ -559,6 +620,10 @@ fn step_c15(ws: &[&str], rep: &mut Report) -> Option<String> {
         },
         [op @ ("chunks" | "chunkse"), hs @ ..] if !hs.is_empty() => match hs.iter().map(|h| unhex(h)).collect::<Option<Vec<Vec<u8>>>>() {
             Some(ps) => lines_chunks(&ps, *op == "chunkse", rep),
+            None => "bad-op".into(),
+        },
+        ["framed", hs @ ..] if !hs.is_empty() => match hs.iter().map(|h| unhex(h).filter(|p| p.len() <= MAX_CHUNK)).collect::<Option<Vec<Vec<u8>>>>() {
+            Some(ps) => lines_framed(&ps, (ps.len() % 4) as u8, rep),
             None => "bad-op".into(),
         },
         ["enc", hs @ ..] => match parse_strs(hs) {
@@ -2138,7 +2203,7 @@ fn parse_item(w: &str) -> Option<Vec<u8>> {
         if n.is_empty() || !n.bytes().all(|c| c.is_ascii_digit()) {
             return None;
         }
-        n.parse::<usize>().ok().filter(|n| *n <= 20000).map(|n| vec![b'a'; n])
+        n.parse::<usize>().ok().filter(|n| *n <= 300000).map(|n| vec![b'a'; n])
     } else {
         unhex(w)
     }
@@ -2624,6 +2689,61 @@ fn gen_c14(a: &Args, w: &mut dyn Write) {
             emit_c14(w, &mut id, "seqr", &cfg, ops);
         }
     });
+    // (A1) write buffers around and beyond 64 KiB and 128 KiB (one big item; many items sent without
+    // asking poll_ready), under transports that take everything / a part and then block / trickle:
+    // flush, ready and close may answer Ready(Ok) only with an empty buffer and every byte on the wire
+    {
+        let big: [usize; 9] = [65534, 65535, 65536, 65537, 70000, 131071, 131072, 131077, 196613];
+        let scripts: [&[Wr]; 5] = [
+            &[],
+            &[Wr::Accept(1000), Wr::Pending],
+            &[Wr::Accept(65535), Wr::Accept(1), Wr::Pending, Wr::Accept(3)],
+            &[Wr::Accept(65536), Wr::Pending],
+            &[Wr::Accept(8192), Wr::Accept(8192), Wr::Accept(8192), Wr::Pending, Wr::Accept(40000), Wr::Accept(1), Wr::Err(K::BrokenPipe)],
+        ];
+        let mut k = 0usize;
+        for total in big {
+            for (si, ws) in scripts.iter().enumerate() {
+                for shape in 0..3 {
+                    k += 1;
+                    id += 1;
+                    let sel = if k % 3 == 0 { Sel::Lines } else { Sel::Bytes };
+                    writeln!(w, "case c14-big-{id} codec={}{}", sel.name(), if k % 4 == 1 { " init=parts" } else { "" }).unwrap();
+                    if !ws.is_empty() {
+                        writeln!(w, "wscript {}", ws.iter().map(show_wr).collect::<Vec<_>>().join(" ")).unwrap();
+                    }
+                    if si % 2 == 1 {
+                        writeln!(w, "fscript p").unwrap();
+                    }
+                    let enc_extra = if sel == Sel::Lines { 1 } else { 0 };
+                    let verb = if k % 2 == 0 { "send" } else { "write" };
+                    match shape {
+                        0 => writeln!(w, "{verb} n:{}", total - enc_extra).unwrap(),
+                        1 => {
+                            // many items, no poll_ready in between
+                            let piece = 8192usize;
+                            let mut left = total;
+                            while left > 0 {
+                                let n = piece.min(left);
+                                if n <= enc_extra {
+                                    break;
+                                }
+                                writeln!(w, "{verb} n:{}", n - enc_extra).unwrap();
+                                left -= n;
+                            }
+                        }
+                        _ => {
+                            writeln!(w, "{verb} n:{}", 65536 - enc_extra).unwrap();
+                            writeln!(w, "{verb} n:{}", total - 65536usize.min(total - 1) ).unwrap();
+                        }
+                    }
+                    for op in [["ready", "flush", "flush", "close", "close"], ["flush", "flush", "flush", "close", "close"], ["close", "close", "close", "flush", "ready"]][k % 3] {
+                        writeln!(w, "{op}").unwrap();
+                    }
+                }
+            }
+        }
+    }
     // (B) longer random runs (shorter when the items are large: the streams stay below ~100 KiB)
     let cases = if thorough { 20000 } else { 2500 };
     for _ in 0..cases {
@@ -2647,7 +2767,7 @@ fn gen_c14(a: &Args, w: &mut dyn Write) {
     // (C) malformed ops: rejected identically by both sides
     writeln!(w, "case c14-malformed codec=bytes").unwrap();
     for l in [
-        "wscript a:", "wscript a:x", "wscript q", "fscript a:1", "sscript z", "send", "send n:", "send n:20001", "send 6", "write", "write n:", "write 6", "ready now", "flush 1", "close x",
+        "wscript a:", "wscript a:x", "wscript q", "fscript a:1", "sscript z", "send", "send n:", "send n:300001", "send 6", "write", "write n:", "write 6", "ready now", "flush 1", "close x",
         "xflush 1", "xclose x", "send n:20000", "flush", "xflush",
     ] {
         writeln!(w, "{l}").unwrap();
